@@ -13,6 +13,7 @@ mod vec_h;
 mod str_h;
 mod slotmap_h;
 mod flatmap_h;
+mod option_h;
 
 use core::alloc::Layout;
 use core::ptr::NonNull;
@@ -112,6 +113,7 @@ fn main() {
         "strz" => str_h::run(&args, &mut out, true),
         "slotmap" => slotmap_h::run(&args, &mut out),
         "flatmap" => flatmap_h::run(&args, &mut out),
+        "option" => option_h::run(&args, &mut out),
         "cap0" => { queue_h::observe_cap0(&mut out); flatmap_h::observe_cap0(&mut out); vec_h::observe_cap0(&mut out); str_h::observe_cap0(&mut out); slotmap_h::observe_cap0(&mut out); }
         c => { eprintln!("unknown container {}", c); std::process::exit(2); }
     }
